@@ -61,14 +61,16 @@ def t2RawOf (j : Json) : R T2Raw := do
          quality := ← optNat j "quality", sliceK := ← optNat j "sliceK", ownerScope := ← fldNat j "scope",
          owner := ← fldNat j "owner", kRetrieval := ← fldInt j "k", now := ← fldNat j "now",
          rank := (rk.getD 0 0, rk.getD 1 0, rk.getD 2 0), residualCap := ← fldInt j "rcap",
-         kSurface := ← fldInt j "ksurf", indexVer := ← fldInt j "ver", index := ← fldNat j "index",
-         labelMap := ← fldNat j "labelMap", rest := ← fldNat j "rest" }
+         kSurface := ← fldInt j "ksurf", indexVer := ← fldInt j "ver", indexTok := ← fldNat j "tok",
+         labelMap := ← fldNat j "labelMap", hybrid := ← fldNat j "hybrid", index := ← fldNat j "index",
+         rest := ← fldNat j "rest" }
 
 def handleTurnKey (j : Json) : R Json := do
   let v := fldD j "version" Json.null
   let ver : Option (List Nat) ← (if v.isNull then pure none else do pure (some (← natList (← v.getArr?))))
   let r : TurnRaw := { version := ver, text := ← fldNatList j "text", sliceK := ← optNat j "sliceK",
-                       agent := 0, t1Labels := 0, labelMap := 0, config := 0, memory := 0, now := 0 }
+                       agent := 0, now := 0, config := 0, t1Sig := 0, graphs := 0, indexVer := 0, gel := 0,
+                       t1Labels := 0, labelMap := 0, memory := 0 }
   let k := turnKey r
   pure (jObj [("ver", jNatList k.ver), ("text", jNatList k.text), ("sliceK", jOptNat k.sliceK)])
 
